@@ -871,6 +871,10 @@ class _MIPS32_ELF(ABI):
             results.add(self.get_register(reg))
         return results
 
+    def byteorder(self) -> Literal["little", "big"]:
+        # The MIPS32 target this ABI assembles for is big-endian.
+        return "big"
+
     def pointer_size(self) -> int:
         return 4
 
